@@ -13,6 +13,8 @@ package main
 //               `copy(x, …)`, `delete(x, …)`, `clear(x)`, `sort.*(x…)`/`slices.*(x…)`/`Sort*(…, x)` with depth ≥ 1
 //               `call F` when storage is handed to a function of fp.go that itself has effects (transitively)
 //               `escape f` when storage (not an element) is handed to a function value or an unknown function
+//   aliasReturns = `return e` with depth(e) ≥ 1 (a call of a function of fp.go counts only if that function itself
+//               returns parameter-derived storage — monotone fixpoint)
 //
 // Output: `Gen/EffectsC03.lean`, `def effectsC03 : List (String × List String)` — one entry per helper named
 // in property C03 (a helper that no longer exists gets the effect "missing").  `Props/C03.lean` closes it
@@ -36,6 +38,7 @@ var c03Helpers = []string{"Map", "MapIndexed", "Filter", "Reject", "Reduce", "Co
 
 type c03Fn struct {
 	name    string
+	returns []string          // return statements that hand out parameter-derived storage
 	own     []string          // own destructive operations
 	calls   map[string]string // in-package callee -> source text of the call that hands storage to it
 	fnParam map[string]bool
@@ -69,6 +72,7 @@ func c03Src(fset *token.FileSet, n ast.Node) string {
 }
 
 type c03Walker struct {
+	aliasRet map[string]bool // in-package functions known to return parameter-derived storage
 	fset    *token.FileSet
 	env     map[string]int
 	fn      *c03Fn
@@ -140,6 +144,9 @@ func (w *c03Walker) depth(e ast.Expr) int {
 				}
 			}
 			return d
+		}
+		if w.pkgFns[name] && !w.aliasRet[name] {
+			return 0 // the callee returns fresh storage
 		}
 		d := 0
 		for _, a := range x.Args {
@@ -263,6 +270,27 @@ func (w *c03Walker) visit(n ast.Node) {
 			}
 		case *ast.CallExpr:
 			w.call(x)
+		case *ast.ReturnStmt:
+			if w.collect {
+				for _, r := range x.Results {
+					if w.depth(r) >= 1 {
+						e := "return " + c03Src(w.fset, r)
+						dup := false
+						for _, o := range w.fn.returns {
+							dup = dup || o == e
+						}
+						if !dup {
+							w.fn.returns = append(w.fn.returns, e)
+						}
+					}
+				}
+			}
+		case *ast.FuncLit:
+			// a closure's own return statements are not the helper's; its body is still scanned for effects
+			saved := w.fn.returns
+			w.visit(x.Body)
+			w.fn.returns = saved
+			return false
 		}
 		return true
 	})
@@ -283,22 +311,33 @@ func genEffectsC03(repo string) (string, error) {
 		}
 	}
 	fns := map[string]*c03Fn{}
-	for _, fd := range decls {
-		fn := &c03Fn{name: fd.Name.Name, calls: map[string]string{}, fnParam: map[string]bool{}}
-		w := &c03Walker{fset: fset, env: map[string]int{}, fn: fn, pkgFns: pkgFns}
-		for _, p := range fd.Type.Params.List {
-			d := c03TypeDepth(p.Type)
-			for _, nm := range p.Names {
-				if d > 0 {
-					w.env[nm.Name] = d
+	aliasRet := map[string]bool{}
+	for round := 0; round < 6; round++ { // which functions return parameter-derived storage: monotone fixpoint
+		changed := false
+		for _, fd := range decls {
+			fn := &c03Fn{name: fd.Name.Name, calls: map[string]string{}, fnParam: map[string]bool{}}
+			w := &c03Walker{fset: fset, env: map[string]int{}, fn: fn, pkgFns: pkgFns, aliasRet: aliasRet}
+			for _, p := range fd.Type.Params.List {
+				d := c03TypeDepth(p.Type)
+				for _, nm := range p.Names {
+					if d > 0 {
+						w.env[nm.Name] = d
+					}
 				}
 			}
+			for pass := 0; pass < 4; pass++ { // taint to a fixpoint (loops), effects collected on the last pass
+				w.collect = pass == 3
+				w.visit(fd.Body)
+			}
+			fns[fn.name] = fn
+			if len(fn.returns) > 0 && !aliasRet[fn.name] {
+				aliasRet[fn.name] = true
+				changed = true
+			}
 		}
-		for pass := 0; pass < 4; pass++ { // taint to a fixpoint (loops), effects collected on the last pass
-			w.collect = pass == 3
-			w.visit(fd.Body)
+		if !changed {
+			break
 		}
-		fns[fn.name] = fn
 	}
 	// transitive closure over in-package calls that receive storage
 	var total func(name string, seen map[string]bool) []string
@@ -331,6 +370,24 @@ func genEffectsC03(repo string) (string, error) {
 			effs = []string{"missing"}
 		} else {
 			effs = total(h, map[string]bool{})
+		}
+		q := make([]string, len(effs))
+		for j, e := range effs {
+			q[j] = fmt.Sprintf("%q", e)
+		}
+		sep := ","
+		if i == len(c03Helpers)-1 {
+			sep = ""
+		}
+		fmt.Fprintf(&b, "  (%q, [%s])%s\n", h, strings.Join(q, ", "), sep)
+	}
+	b.WriteString("]\n\n")
+	b.WriteString("/-- per C03 helper: return statements whose value shares storage with a slice/map parameter -/\n")
+	b.WriteString("def aliasReturnsC03 : List (String × List String) := [\n")
+	for i, h := range c03Helpers {
+		effs := []string{"missing"}
+		if fns[h] != nil {
+			effs = fns[h].returns
 		}
 		q := make([]string, len(effs))
 		for j, e := range effs {
